@@ -5,6 +5,9 @@ props=[json.loads(l) for l in open('/verif/properties.jsonl')]
 ids=[p['id'] for p in props]
 TB="trusted: SMT solvers sound for unsat; Go compiler/runtime semantics as encoded (DESIGN.md s5); native models of dependency functions listed in the evidence file; lengths <= 2^40; non-nil non-aliasing pointer parameters"
 claimed={
+ 'C17':dict(technique="contract-based deductive verification: generated non-interference (2-safety) VCs per observable receiver field over the go/ssa encoding of each decoder, by substitution of an independent prior receiver state (self-composition where control flow depends on state); z3/cvc5; counterexamples replayed (reused vs fresh value) with go test -overlay",
+   text="Proof, for every decoder of pkg/ipmi and pkg/dcmi, every input and every pair of prior receiver states, that acceptance and every exported field written by the decoder are functions of the decoded bytes (and declared configuration fields) only. Connection-level reuse (layers overwritten before each send) is not yet covered by this check.",
+   note=TB+"; byte slices and strings are compared by length and content, nil-ness of empty slices is not compared; fields a decoder never writes are not outputs",ref="DESIGN.md s9 C17"),
  'C05':dict(technique="contract-based deductive verification: zero-annotation safety VCs (index/slice/nil/div/termination) generated from go/ssa of the real decoders, discharged by z3/cvc5; counterexamples replayed with go test -overlay",
    text="Proof, for every byte string and every prior receiver state, that no layer decoder of pkg/ipmi and pkg/dcmi panics, reads beyond len(data) (bounds are proved against len, not cap) or loops forever; loops are cut by inferred/stated invariants and variants. Unbounded in the input; per-function modular.",
    note=TB+"; the reply-handling code of package bmc and gopacket's layer chaining are covered only where listed in functions_under_contract; cipher.Block is AES (block size 16); decrypted bytes are arbitrary (uninterpreted), which covers payloads crafted by a key holder",ref="DESIGN.md s9 C05"),
